@@ -155,22 +155,26 @@ func cmdCheck(args []string) int {
 		}
 	}
 	solveAll(all, pools, 16)
-	// helper lemmas: an instance whose lemmas are not all proved is re-run without them
+	// helper lemmas: an instance whose lemmas are not all proved is re-run without them;
+	// an instance whose invariant assertions fail is re-run without assuming them
 	for i, r := range all {
-		bad := false
+		bad, badInv := false, false
 		for _, q := range r.Queries {
 			if q.Kind == "lemma" && q.Status != "unsat" {
 				bad = true
 			}
+			if q.Kind == "assert" && isInv(q.Label) && q.Status == "sat" {
+				badInv = true
+			}
 		}
-		if !bad {
+		if !bad && !badInv {
 			continue
 		}
-		fmt.Printf("  helper lemma not proved in %s[%s]: re-running without lemmas\n", r.Job, paramStr(r.Params))
+		fmt.Printf("  %s[%s]: re-running (helper lemma unproved=%v, invariant broken=%v)\n", r.Job, paramStr(r.Params), bad, badInv)
 		js := jobByName0(spec.Jobs, r.Job)
-		lemmasOff = true
+		lemmasOff, invNoAssume = bad, badInv
 		nr := runInstance(loaded[js.Pkg+"|"+js.Harness], js, r.Params, pools, pools["z3-new"])
-		lemmasOff = false
+		lemmasOff, invNoAssume = false, false
 		solveAll([]*InstanceResult{nr}, pools, 16)
 		all[i] = nr
 		lemmaReruns++
